@@ -256,12 +256,17 @@ Definition text_aut (kw : list token) (text : list line) : automaton :=
   let ds := decls kw text in
   mkAut (field kw_states ds []) (transs kw text) (field kw_initial ds []) (field kw_final ds []) ds.
 
+Lemma mem_app {A} `{Eqb A} (x : A) l1 l2 : mem x (l1 ++ l2) = mem x l1 || mem x l2.
+Proof. unfold mem. apply existsb_app. Qed.
+
+Lemma mem_cons {A} `{Eqb A} (x y : A) l : mem x (y :: l) = eqb x y || mem x l.
+Proof. reflexivity. Qed.
+
 Lemma has_dup_snoc (l : list token) k : has_dup (l ++ [k]) = has_dup l || mem k l.
 Proof.
   induction l as [|x l IH]; [reflexivity|].
-  cbn [app has_dup]. rewrite IH. unfold mem at 1. rewrite existsb_app. fold (mem x l). cbn [existsb mem].
-  rewrite orb_false_r. rewrite (eqb_sym k x).
-  destruct (mem x l), (eqb x k), (has_dup l), (existsb (eqb k) l); reflexivity.
+  cbn [app has_dup]. rewrite IH, mem_app, !mem_cons. cbn [mem existsb]. rewrite (eqb_sym k x).
+  destruct (mem x l), (eqb x k), (has_dup l), (mem k l); reflexivity.
 Qed.
 
 Lemma lookup_app {K V} `{Eqb K} (k : K) (m1 m2 : list (K * V)) :
@@ -306,7 +311,7 @@ Proof.
     destruct (mem k (map fst (decls kw text))) eqn:Hm; cbn [negb]; [reflexivity|].
     unfold field. rewrite !lookup_app. cbn [lookup].
     assert (Hlk : lookup k (decls kw text) = None).
-    { rewrite has_key_mem in *. pose proof (has_key_mem k (decls kw text)) as Hk. unfold has_key in Hk.
+    { pose proof (has_key_mem k (decls kw text)) as Hk. unfold has_key in Hk.
       destruct (lookup k (decls kw text)); [rewrite Hm in Hk; discriminate | reflexivity]. }
     f_equal. f_equal.
     + destruct (eqb kw_states k) eqn:Ek; [apply eqb_true in Ek; subst k; rewrite Hlk; reflexivity|].
@@ -315,4 +320,1097 @@ Proof.
       destruct (lookup kw_initial (decls kw text)); reflexivity.
     + destruct (eqb kw_final k) eqn:Ek; [apply eqb_true in Ek; subst k; rewrite Hlk; reflexivity|].
       destruct (lookup kw_final (decls kw text)); reflexivity.
+Qed.
+
+(* ------------------------------------------------------------------ *)
+(* Part B: rejection lemmas                                            *)
+(* ------------------------------------------------------------------ *)
+Definition kw_dfa : list token := [kw_input_symbols; kw_epsilon; kw_stack_symbols; kw_tape_symbols; kw_blank; kw_accept; kw_reject].
+Definition kw_nfa : list token := [kw_input_symbols; kw_epsilon].
+Definition kw_pda : list token := [kw_input_symbols; kw_stack_symbols; kw_epsilon].
+Definition kw_tm : list token := [kw_input_symbols; kw_tape_symbols; kw_blank; kw_accept; kw_reject].
+
+Lemma parse_dfa_with_unfold sre text :
+  parse_dfa_with sre text = match parse_automaton sre re_any kw_dfa text with Some A => build_dfa sre A | None => None end.
+Proof. reflexivity. Qed.
+Lemma parse_nfa_unfold text :
+  parse_nfa text = match parse_automaton re_word re_any kw_nfa text with Some A => build_nfa re_word A | None => None end.
+Proof. reflexivity. Qed.
+Lemma parse_pda_unfold text :
+  parse_pda text = match parse_automaton re_word re_pda_label kw_pda text with Some A => build_pda re_word A | None => None end.
+Proof. reflexivity. Qed.
+Lemma parse_tm_unfold text :
+  parse_tm text = match parse_automaton re_word re_tm_label kw_tm text with Some A => build_tm re_word A | None => None end.
+Proof. reflexivity. Qed.
+
+(* a text is rejected by all four parsers as soon as parse_automaton rejects it for the four parameter sets *)
+Definition rejected_by_all (text : list line) : Prop :=
+  (forall sre, parse_dfa_with sre text = None) /\ parse_nfa text = None /\ parse_pda text = None /\ parse_tm text = None.
+
+Lemma rejected_by_all_intro text :
+  (forall sre lre kw, incl kw kw_dfa -> parse_automaton sre lre kw text = None) -> rejected_by_all text.
+Proof.
+  intros Hr. unfold rejected_by_all.
+  repeat split; [intros sre; rewrite parse_dfa_with_unfold | rewrite parse_nfa_unfold | rewrite parse_pda_unfold | rewrite parse_tm_unfold];
+    rewrite Hr; try reflexivity; intros x Hx; cbn in Hx |- *; tauto.
+Qed.
+
+(* B0: a line failing the per-line checks anywhere in the text makes the parser reject *)
+Lemma bad_line_rejected sre lre kw text l :
+  In l text -> line_ok sre lre kw l = false -> parse_automaton sre lre kw text = None.
+Proof.
+  intros Hin Hbad. rewrite parse_automaton_spec. unfold text_ok.
+  assert (Hf : forallb (line_ok sre lre kw) text = false).
+  { destruct (forallb (line_ok sre lre kw) text) eqn:E; [|reflexivity].
+    rewrite forallb_forall in E. rewrite (E l Hin) in Hbad. discriminate. }
+  rewrite Hf. reflexivity.
+Qed.
+
+Lemma rejected_line_fold sre lre kw t1 l t2 :
+  (forall A, parse_line sre lre kw (Some A) l = None) -> parse_automaton sre lre kw (t1 ++ l :: t2) = None.
+Proof.
+  intros Hl. rewrite parse_automaton_app. cbn [fold_left].
+  destruct (parse_automaton sre lre kw t1) as [A|]; [rewrite Hl|]; apply fold_parse_None.
+Qed.
+
+Lemma is_trans_cons kw w0 ws :
+  is_trans kw (w0 :: ws) = true <-> starts_percent w0 = false /\ is_reserved kw w0 = false.
+Proof.
+  unfold is_trans, is_comment, is_decl.
+  destruct (starts_percent w0), (is_reserved kw w0); cbn; split; try tauto; try (intros [? ?]; discriminate); discriminate.
+Qed.
+
+Lemma is_reserved_false kw w0 :
+  is_reserved kw w0 = false -> eqb w0 kw_states = false /\ eqb w0 kw_final = false /\ eqb w0 kw_initial = false /\ mem w0 kw = false.
+Proof. unfold is_reserved. rewrite !orb_false_iff. tauto. Qed.
+
+Lemma line_ok_trans sre lre kw w0 ws :
+  is_trans kw (w0 :: ws) = true ->
+  line_ok sre lre kw (w0 :: ws) =
+  match ws with q :: l1 :: lrest => sre w0 && sre q && forallb lre (l1 :: lrest) | _ => false end.
+Proof.
+  intros Ht. apply is_trans_cons in Ht. destruct Ht as [Hp Hr].
+  apply is_reserved_false in Hr. destruct Hr as [Hs [Hf [Hi Hk]]].
+  unfold line_ok. fold (starts_percent w0). rewrite Hp, Hs, Hf, Hi, Hk. reflexivity.
+Qed.
+
+(* B1: incomplete transitions *)
+Lemma incomplete_transition_line sre lre kw l :
+  is_trans kw l = true -> length l <= 2 -> line_ok sre lre kw l = false.
+Proof.
+  intros Ht Hlen. destruct l as [|w0 ws]; [discriminate|].
+  rewrite (line_ok_trans sre lre _ _ _ Ht).
+  destruct ws as [|q [|l1 lrest]]; try reflexivity. cbn in Hlen. lia.
+Qed.
+
+Lemma is_trans_mono kw kw' l : incl kw kw' -> is_trans kw' l = true -> is_trans kw l = true.
+Proof.
+  intros Hi. destruct l as [|w0 ws]; [discriminate|]. rewrite !is_trans_cons.
+  intros [Hp Hr]. split; [exact Hp|].
+  apply is_reserved_false in Hr. destruct Hr as [Hs [Hf [Hin Hk]]].
+  unfold is_reserved. rewrite Hs, Hf, Hin. cbn [orb].
+  apply mem_nIn. apply mem_nIn in Hk. intros Hc. apply Hk, Hi, Hc.
+Qed.
+
+Theorem incomplete_transition_rejected : forall sre lre kw text l,
+  In l text -> is_trans kw l = true -> length l <= 2 -> parse_automaton sre lre kw text = None.
+Proof.
+  intros sre lre kw text l Hin Ht Hlen.
+  apply (bad_line_rejected _ _ _ _ _ Hin). apply incomplete_transition_line; assumption.
+Qed.
+
+Theorem incomplete_transition_rejected_all : forall text l,
+  In l text -> is_trans kw_dfa l = true -> length l <= 2 -> rejected_by_all text.
+Proof.
+  intros text l Hin Ht Hlen. apply rejected_by_all_intro. intros sre lre kw Hkw.
+  apply (incomplete_transition_rejected sre lre kw text l Hin); [|exact Hlen].
+  apply (is_trans_mono _ _ _ Hkw Ht).
+Qed.
+
+(* B2: ill-formed labels / state words in a transition line *)
+Lemma bad_label_line sre lre kw p q labels :
+  is_trans kw (p :: q :: labels) = true ->
+  sre p = false \/ sre q = false \/ (exists a, In a labels /\ lre a = false) ->
+  line_ok sre lre kw (p :: q :: labels) = false.
+Proof.
+  intros Ht Hbad. rewrite (line_ok_trans sre lre _ _ _ Ht).
+  destruct labels as [|l1 lrest]; [reflexivity|].
+  destruct Hbad as [Hp|[Hq|[a [Ha Hl]]]].
+  - rewrite Hp. reflexivity.
+  - rewrite Hq, andb_false_r. reflexivity.
+  - apply andb_false_iff. right.
+    destruct (forallb lre (l1 :: lrest)) eqn:E; [|reflexivity].
+    rewrite forallb_forall in E. rewrite (E a Ha) in Hl. discriminate.
+Qed.
+
+Theorem bad_label_rejected : forall sre lre kw text p q labels,
+  In (p :: q :: labels) text -> is_trans kw (p :: q :: labels) = true ->
+  sre p = false \/ sre q = false \/ (exists a, In a labels /\ lre a = false) ->
+  parse_automaton sre lre kw text = None.
+Proof.
+  intros sre lre kw text p q labels Hin Ht Hbad.
+  apply (bad_line_rejected _ _ _ _ _ Hin). apply bad_label_line; assumption.
+Qed.
+
+Theorem bad_label_rejected_dfa : forall sre text p q labels,
+  In (p :: q :: labels) text -> is_trans kw_dfa (p :: q :: labels) = true ->
+  sre p = false \/ sre q = false \/ In [] labels -> parse_dfa_with sre text = None.
+Proof.
+  intros sre text p q labels Hin Ht Hbad. rewrite parse_dfa_with_unfold.
+  rewrite (bad_label_rejected sre re_any kw_dfa text p q labels Hin Ht); [reflexivity|].
+  destruct Hbad as [H1|[H1|H1]]; [auto | auto | right; right; exists []; auto].
+Qed.
+
+Theorem bad_label_rejected_nfa : forall text p q labels,
+  In (p :: q :: labels) text -> is_trans kw_nfa (p :: q :: labels) = true ->
+  re_word p = false \/ re_word q = false \/ In [] labels -> parse_nfa text = None.
+Proof.
+  intros text p q labels Hin Ht Hbad. rewrite parse_nfa_unfold.
+  rewrite (bad_label_rejected re_word re_any kw_nfa text p q labels Hin Ht); [reflexivity|].
+  destruct Hbad as [H1|[H1|H1]]; [auto | auto | right; right; exists []; auto].
+Qed.
+
+Theorem bad_label_rejected_pda : forall text p q labels,
+  In (p :: q :: labels) text -> is_trans kw_pda (p :: q :: labels) = true ->
+  re_word p = false \/ re_word q = false \/ (exists a, In a labels /\ re_pda_label a = false) -> parse_pda text = None.
+Proof.
+  intros text p q labels Hin Ht Hbad. rewrite parse_pda_unfold.
+  rewrite (bad_label_rejected re_word re_pda_label kw_pda text p q labels Hin Ht Hbad). reflexivity.
+Qed.
+
+Theorem bad_label_rejected_tm : forall text p q labels,
+  In (p :: q :: labels) text -> is_trans kw_tm (p :: q :: labels) = true ->
+  re_word p = false \/ re_word q = false \/ (exists a, In a labels /\ re_tm_label a = false) -> parse_tm text = None.
+Proof.
+  intros text p q labels Hin Ht Hbad. rewrite parse_tm_unfold.
+  rewrite (bad_label_rejected re_word re_tm_label kw_tm text p q labels Hin Ht Hbad). reflexivity.
+Qed.
+
+(* B3: duplicate declarations *)
+Lemma decl_of_decl kw k ws : is_decl kw (k :: ws) = true -> decl_of kw (k :: ws) = [(k, ws)].
+Proof. intros Hd. unfold decl_of. rewrite Hd. reflexivity. Qed.
+
+Lemma decls_app kw t1 t2 : decls kw (t1 ++ t2) = decls kw t1 ++ decls kw t2.
+Proof. unfold decls. apply flat_map_app. Qed.
+Lemma decls_cons kw l t : decls kw (l :: t) = decl_of kw l ++ decls kw t.
+Proof. reflexivity. Qed.
+Lemma transs_app kw t1 t2 : transs kw (t1 ++ t2) = transs kw t1 ++ transs kw t2.
+Proof. unfold transs. apply flat_map_app. Qed.
+Lemma transs_cons kw l t : transs kw (l :: t) = trans_of kw l ++ transs kw t.
+Proof. reflexivity. Qed.
+
+Theorem duplicate_declaration_rejected : forall sre lre kw t1 t2 t3 k ws1 ws2,
+  is_decl kw (k :: ws1) = true ->
+  parse_automaton sre lre kw (t1 ++ (k :: ws1) :: t2 ++ (k :: ws2) :: t3) = None.
+Proof.
+  intros sre lre kw t1 t2 t3 k ws1 ws2 Hd.
+  assert (Hd2 : is_decl kw (k :: ws2) = true) by exact Hd.
+  rewrite parse_automaton_spec. unfold text_ok.
+  assert (Hdup : has_dup (map fst (decls kw (t1 ++ (k :: ws1) :: t2 ++ (k :: ws2) :: t3))) = true).
+  { destruct (has_dup _) eqn:E; [reflexivity|]. exfalso. apply has_dup_NoDup in E.
+    rewrite decls_app, decls_cons, decls_app, decls_cons, (decl_of_decl _ _ _ Hd), (decl_of_decl _ _ _ Hd2) in E.
+    rewrite !map_app in E. cbn [map fst app] in E.
+    apply NoDup_remove_2 in E. apply E. rewrite !in_app_iff. cbn [In]. tauto. }
+  rewrite Hdup, andb_false_r. reflexivity.
+Qed.
+
+Lemma is_decl_mono kw kw' l : incl kw kw' -> is_decl kw l = true -> is_decl kw' l = true.
+Proof.
+  intros Hi. destruct l as [|w0 ws]; [discriminate|]. unfold is_decl, is_reserved.
+  rewrite !andb_true_iff, !orb_true_iff, !mem_In. intros [Hp Hr]. split; [exact Hp|].
+  destruct Hr as [Hr|Hr]; [left; exact Hr | right; apply Hi, Hr].
+Qed.
+
+(* a declaration line of states / final / initial that names a state twice *)
+Lemma repeated_state_line sre lre kw k ws :
+  k = kw_states \/ k = kw_final \/ k = kw_initial -> has_dup ws = true -> line_ok sre lre kw (k :: ws) = false.
+Proof.
+  intros Hk Hd. destruct Hk as [-> | [-> | ->]]; unfold line_ok; cbn [starts_percent]; rewrite Hd; reflexivity.
+Qed.
+
+Theorem repeated_state_rejected : forall sre lre kw text k ws,
+  In (k :: ws) text -> k = kw_states \/ k = kw_final \/ k = kw_initial -> has_dup ws = true ->
+  parse_automaton sre lre kw text = None.
+Proof.
+  intros sre lre kw text k ws Hin Hk Hd.
+  apply (bad_line_rejected _ _ _ _ _ Hin). apply repeated_state_line; assumption.
+Qed.
+
+(* an empty `states` declaration, or a declared state name failing the state pattern *)
+Theorem bad_state_declaration_rejected : forall sre lre kw text k ws,
+  In (k :: ws) text -> k = kw_states \/ k = kw_final \/ k = kw_initial ->
+  (k = kw_states /\ ws = []) \/ (exists s, In s ws /\ sre s = false) ->
+  parse_automaton sre lre kw text = None.
+Proof.
+  intros sre lre kw text k ws Hin Hk Hbad.
+  apply (bad_line_rejected _ _ _ _ _ Hin).
+  assert (Hf : (exists s, In s ws /\ sre s = false) -> forallb sre ws = false).
+  { intros [s [Hs Hr]]. destruct (forallb sre ws) eqn:E; [|reflexivity].
+    rewrite forallb_forall in E. rewrite (E s Hs) in Hr. discriminate. }
+  destruct Hbad as [[-> ->]|Hbad].
+  - reflexivity.
+  - specialize (Hf Hbad). destruct Hk as [-> | [-> | ->]]; unfold line_ok; cbn [starts_percent]; rewrite Hf, !andb_false_r; reflexivity.
+Qed.
+
+(* ---- builder-level rejections (on the parsed automaton record) ---- *)
+Lemma used_states_In A s :
+  In s (used_states A) <->
+  In s (a_init A) \/ In s (a_final A) \/ exists p a q, In (p, a, q) (a_trans A) /\ (s = p \/ s = q).
+Proof.
+  unfold used_states. rewrite dedup_In, !in_app_iff, in_flat_map. split.
+  - intros [Hi|[Hf|[[[p a] q] [Ht Hs]]]]; [auto | auto |].
+    right; right. exists p, a, q. split; [exact Ht|]. cbn in Hs. destruct Hs as [<-|[<-|[]]]; auto.
+  - intros [Hi|[Hf|[p [a [q [Ht Hs]]]]]]; [auto | auto |].
+    right; right. exists (p, a, q). split; [exact Ht|]. cbn. destruct Hs as [->| ->]; auto.
+Qed.
+
+Lemma check_common_init sre st A : length (dedup (a_init A)) <> 1 -> check_common sre st A = false.
+Proof.
+  intros Hl. unfold check_common. apply Nat.eqb_neq in Hl. rewrite Hl, andb_false_r. reflexivity.
+Qed.
+
+Lemma check_common_undeclared sre st A s : In s (used_states A) -> ~ In s st -> check_common sre st A = false.
+Proof.
+  intros Hu Hn. unfold check_common.
+  destruct (subsetb (used_states A) st) eqn:E; [|reflexivity].
+  apply subsetb_incl in E. exfalso. apply Hn, E, Hu.
+Qed.
+
+Lemma check_common_bad_state sre st A s : In s st -> sre s = false -> check_common sre st A = false.
+Proof.
+  intros Hs Hr. unfold check_common.
+  destruct (forallb sre st) eqn:E; [|rewrite andb_false_r; reflexivity].
+  rewrite forallb_forall in E. rewrite (E s Hs) in Hr. discriminate.
+Qed.
+
+Lemma build_dfa_check sre A : check_common sre (states_or_used A) A = false -> build_dfa sre A = None.
+Proof. intros Hc. unfold build_dfa. rewrite Hc. reflexivity. Qed.
+Lemma build_nfa_check sre A : check_common sre (states_or_used A) A = false -> build_nfa sre A = None.
+Proof. intros Hc. unfold build_nfa. rewrite Hc. reflexivity. Qed.
+Lemma build_pda_check sre A : check_common sre (states_or_used A) A = false -> build_pda sre A = None.
+Proof. intros Hc. unfold build_pda. rewrite Hc. reflexivity. Qed.
+Definition tm_states (A : automaton) (qa qr : token) : list token :=
+  match a_states A with [] => union (used_states A) [qa; qr] | s => s end.
+Lemma build_tm_check sre A : (forall qa qr, check_common sre (tm_states A qa qr) A = false) -> build_tm sre A = None.
+Proof.
+  intros Hc. unfold build_tm.
+  destruct (get_single A kw_accept _) as [qa|]; [|reflexivity].
+  destruct (get_single A kw_reject _) as [qr|]; [|reflexivity].
+  fold (tm_states A qa qr). rewrite Hc. reflexivity.
+Qed.
+
+(* B4: no / several initial states *)
+Theorem initial_count_rejected : forall sre A, length (dedup (a_init A)) <> 1 ->
+  build_dfa sre A = None /\ build_nfa sre A = None /\ build_pda sre A = None /\ build_tm sre A = None.
+Proof.
+  intros sre A Hl. repeat split.
+  - apply build_dfa_check, check_common_init, Hl.
+  - apply build_nfa_check, check_common_init, Hl.
+  - apply build_pda_check, check_common_init, Hl.
+  - apply build_tm_check. intros qa qr. apply check_common_init, Hl.
+Qed.
+
+Theorem no_initial_rejected : forall sre A, a_init A = [] ->
+  build_dfa sre A = None /\ build_nfa sre A = None /\ build_pda sre A = None /\ build_tm sre A = None.
+Proof. intros sre A Hi. apply initial_count_rejected. rewrite Hi. cbn. lia. Qed.
+
+Theorem several_initial_rejected : forall sre A q1 q2, In q1 (a_init A) -> In q2 (a_init A) -> q1 <> q2 ->
+  build_dfa sre A = None /\ build_nfa sre A = None /\ build_pda sre A = None /\ build_tm sre A = None.
+Proof.
+  intros sre A q1 q2 H1 H2 Hne. apply initial_count_rejected.
+  apply (dedup_In q1) in H1. apply (dedup_In q2) in H2.
+  destruct (dedup (a_init A)) as [|x [|y r]]; cbn [length]; [lia| |lia].
+  cbn in H1, H2. destruct H1 as [<-|[]]. destruct H2 as [<-|[]]. congruence.
+Qed.
+
+(* text level: the parsed a_init is the word list of the `initial` line, [] if there is none *)
+Lemma lookup_NoDup_In {K V} `{Eqb K} (k : K) (v : V) m : NoDup (map fst m) -> In (k, v) m -> lookup k m = Some v.
+Proof.
+  induction m as [|[k' v'] m IH]; intros Hn Hin; [destruct Hin|].
+  cbn [map fst] in Hn. inversion Hn as [|x l Hx Hl]; subst.
+  cbn [lookup]. destruct Hin as [E|Hin].
+  - inversion E; subst. rewrite eqb_refl. reflexivity.
+  - destruct (eqb k k') eqn:E; [|apply IH; assumption].
+    apply eqb_true in E; subst k'. exfalso. apply Hx. apply in_map_iff. exists (k, v). auto.
+Qed.
+
+Lemma In_decls kw text k ws : In (k :: ws) text -> is_decl kw (k :: ws) = true -> In (k, ws) (decls kw text).
+Proof.
+  intros Hin Hd. unfold decls. apply in_flat_map. exists (k :: ws). split; [exact Hin|].
+  rewrite (decl_of_decl _ _ _ Hd). left; reflexivity.
+Qed.
+
+Lemma parse_automaton_Some sre lre kw text A :
+  parse_automaton sre lre kw text = Some A ->
+  A = text_aut kw text /\ (forall l, In l text -> line_ok sre lre kw l = true) /\ NoDup (map fst (decls kw text)).
+Proof.
+  rewrite parse_automaton_spec. unfold text_ok.
+  destruct (forallb (line_ok sre lre kw) text) eqn:Hok; [|discriminate].
+  destruct (has_dup (map fst (decls kw text))) eqn:Hd; [discriminate|]. cbn.
+  intros E; inversion E; subst. repeat split.
+  - apply forallb_forall; exact Hok.
+  - apply has_dup_NoDup; exact Hd.
+Qed.
+
+Lemma is_decl_initial kw ws : is_decl kw (kw_initial :: ws) = true.
+Proof. reflexivity. Qed.
+Lemma is_decl_states kw ws : is_decl kw (kw_states :: ws) = true.
+Proof. reflexivity. Qed.
+Lemma is_decl_final kw ws : is_decl kw (kw_final :: ws) = true.
+Proof. reflexivity. Qed.
+
+Lemma parsed_field sre lre kw text A k ws :
+  parse_automaton sre lre kw text = Some A -> In (k :: ws) text -> is_decl kw (k :: ws) = true ->
+  lookup k (a_items A) = Some ws.
+Proof.
+  intros Hp Hin Hd. apply parse_automaton_Some in Hp. destruct Hp as [-> [Hok Hn]].
+  cbn [text_aut a_items]. apply lookup_NoDup_In; [exact Hn | apply In_decls; assumption].
+Qed.
+
+Theorem initial_line_count_rejected : forall sre lre kw text A ws,
+  parse_automaton sre lre kw text = Some A -> In (kw_initial :: ws) text -> length ws <> 1 ->
+  build_dfa sre A = None /\ build_nfa sre A = None /\ build_pda sre A = None /\ build_tm sre A = None.
+Proof.
+  intros sre lre kw text A ws Hp Hin Hl.
+  apply parse_automaton_Some in Hp. destruct Hp as [-> [Hok Hn]].
+  apply initial_count_rejected. cbn [text_aut a_init]. unfold field.
+  rewrite (lookup_NoDup_In kw_initial ws _ Hn (In_decls kw _ _ _ Hin (is_decl_initial kw ws))).
+  specialize (Hok _ Hin). unfold line_ok in Hok. cbn [starts_percent] in Hok.
+  change (negb (has_dup ws) && forallb sre ws = true) in Hok.
+  apply andb_true_iff in Hok. destruct Hok as [Hd _]. apply negb_true_iff in Hd.
+  rewrite (has_dup_dedup _ Hd). exact Hl.
+Qed.
+
+Theorem no_initial_line_rejected : forall sre lre kw text A,
+  parse_automaton sre lre kw text = Some A -> (forall ws, ~ In (kw_initial :: ws) text) ->
+  build_dfa sre A = None /\ build_nfa sre A = None /\ build_pda sre A = None /\ build_tm sre A = None.
+Proof.
+  intros sre lre kw text A Hp Hno.
+  apply parse_automaton_Some in Hp. destruct Hp as [-> _].
+  apply no_initial_rejected. cbn [text_aut a_init]. unfold field.
+  destruct (lookup kw_initial (decls kw text)) as [ws|] eqn:E; [|reflexivity].
+  exfalso. apply lookup_In in E. unfold decls in E. apply in_flat_map in E. destruct E as [l [Hl Hd]].
+  destruct (decl_of_cases kw l) as [E|[k [ws' [E [El _]]]]]; rewrite E in Hd; [destruct Hd|].
+  destruct Hd as [Hd|[]]. inversion Hd; subst. apply (Hno ws). exact Hl.
+Qed.
+
+(* B5: undeclared states *)
+Theorem undeclared_state_rejected : forall sre A s,
+  a_states A <> [] -> In s (used_states A) -> ~ In s (a_states A) ->
+  build_dfa sre A = None /\ build_nfa sre A = None /\ build_pda sre A = None /\ build_tm sre A = None.
+Proof.
+  intros sre A s Hne Hu Hn.
+  assert (Hs : states_or_used A = a_states A).
+  { unfold states_or_used. destruct (a_states A); [contradiction | reflexivity]. }
+  assert (Ht : forall qa qr, tm_states A qa qr = a_states A).
+  { intros qa qr. unfold tm_states. destruct (a_states A); [contradiction | reflexivity]. }
+  repeat split.
+  - apply build_dfa_check. rewrite Hs. apply (check_common_undeclared _ _ _ s); assumption.
+  - apply build_nfa_check. rewrite Hs. apply (check_common_undeclared _ _ _ s); assumption.
+  - apply build_pda_check. rewrite Hs. apply (check_common_undeclared _ _ _ s); assumption.
+  - apply build_tm_check. intros qa qr. rewrite Ht. apply (check_common_undeclared _ _ _ s); assumption.
+Qed.
+
+(* B6: undeclared symbols *)
+Lemma get_symbol_set_undeclared A k decl used a :
+  lookup k (a_items A) = Some decl -> In a used -> ~ In a decl -> get_symbol_set A k used = None.
+Proof.
+  intros Hl Hu Hn. unfold get_symbol_set. rewrite Hl.
+  destruct (subsetb used (dedup decl)) eqn:E; [|reflexivity].
+  apply subsetb_incl in E. exfalso. apply Hn. apply (dedup_In a decl). apply E, Hu.
+Qed.
+
+Theorem undeclared_symbol_rejected_dfa : forall sre A decl p a q,
+  lookup kw_input_symbols (a_items A) = Some decl -> In (p, a, q) (a_trans A) -> ~ In a decl ->
+  build_dfa sre A = None.
+Proof.
+  intros sre A decl p a q Hl Ht Hn. unfold build_dfa.
+  destruct (negb (check_common sre (states_or_used A) A)); [reflexivity|].
+  destruct (negb (Nat.eqb _ _)); [reflexivity|].
+  rewrite (get_symbol_set_undeclared A kw_input_symbols decl _ a Hl); [reflexivity | | exact Hn].
+  apply dedup_In. rewrite map_map. apply in_map_iff. exists (p, a, q). split; [reflexivity | exact Ht].
+Qed.
+
+Theorem undeclared_symbol_rejected_nfa : forall sre A decl p a q,
+  lookup kw_input_symbols (a_items A) = Some decl -> In (p, a, q) (a_trans A) -> ~ In a decl ->
+  (forall eps, parse_symbol A kw_epsilon c_eps [c_underscore] = Some eps -> a <> eps) ->
+  build_nfa sre A = None.
+Proof.
+  intros sre A decl p a q Hl Ht Hn He. unfold build_nfa.
+  destruct (negb (check_common sre (states_or_used A) A)); [reflexivity|].
+  destruct (parse_symbol A kw_epsilon c_eps [c_underscore]) as [eps|]; [|reflexivity].
+  rewrite (get_symbol_set_undeclared A kw_input_symbols decl _ a Hl); [reflexivity | | exact Hn].
+  apply dedup_In. apply filter_In. split.
+  - apply in_map_iff. exists (p, a, q). split; [reflexivity | exact Ht].
+  - apply negb_true_iff. apply eqb_neq. apply He. reflexivity.
+Qed.
+
+Theorem undeclared_symbol_rejected_pda : forall sre A decl p l q,
+  In (p, l, q) (a_trans A) ->
+  (forall eps, parse_symbol A kw_epsilon c_eps [c_underscore] = Some eps ->
+     (lookup kw_input_symbols (a_items A) = Some decl /\ lbl l 0 <> eps /\ ~ In (lbl l 0) decl) \/
+     (lookup kw_stack_symbols (a_items A) = Some decl /\
+      ((lbl l 2 <> eps /\ ~ In (lbl l 2) decl) \/ (lbl l 3 <> eps /\ ~ In (lbl l 3) decl)))) ->
+  build_pda sre A = None.
+Proof.
+  intros sre A decl p l q Ht He. unfold build_pda.
+  destruct (negb (check_common sre (states_or_used A) A)); [reflexivity|].
+  destruct (parse_symbol A kw_epsilon c_eps [c_underscore]) as [eps|]; [|reflexivity].
+  assert (Hl : In l (map (fun t : token * token * token => let '(_, a, _) := t in a) (a_trans A))).
+  { apply in_map_iff. exists (p, l, q). split; [reflexivity | exact Ht]. }
+  destruct (He eps eq_refl) as [[Hlk [Hne Hn]]|[Hlk Hst]].
+  - rewrite (get_symbol_set_undeclared A kw_input_symbols decl _ (lbl l 0) Hlk); [reflexivity | | exact Hn].
+    apply dedup_In. apply filter_In. split.
+    + apply in_map_iff. exists l. split; [reflexivity | exact Hl].
+    + apply negb_true_iff, eqb_neq, Hne.
+  - destruct (get_symbol_set A kw_input_symbols _); [|reflexivity].
+    destruct Hst as [[Hne Hn]|[Hne Hn]].
+    + rewrite (get_symbol_set_undeclared A kw_stack_symbols decl _ (lbl l 2) Hlk); [reflexivity | | exact Hn].
+      apply dedup_In. apply filter_In. split.
+      * apply in_flat_map. exists l. split; [exact Hl | cbn; auto].
+      * apply negb_true_iff, eqb_neq, Hne.
+    + rewrite (get_symbol_set_undeclared A kw_stack_symbols decl _ (lbl l 3) Hlk); [reflexivity | | exact Hn].
+      apply dedup_In. apply filter_In. split.
+      * apply in_flat_map. exists l. split; [exact Hl | cbn; auto].
+      * apply negb_true_iff, eqb_neq, Hne.
+Qed.
+
+Theorem undeclared_symbol_rejected_tm : forall sre A decl p l q,
+  lookup kw_tape_symbols (a_items A) = Some decl -> In (p, l, q) (a_trans A) ->
+  ~ In (lbl l 0) decl \/ ~ In (lbl l 1) decl ->
+  build_tm sre A = None.
+Proof.
+  intros sre A decl p l q Hlk Ht Hn. unfold build_tm.
+  destruct (get_single A kw_accept _) as [qa|]; [|reflexivity].
+  destruct (get_single A kw_reject _) as [qr|]; [|reflexivity].
+  destruct (negb (check_common sre _ A)); [reflexivity|].
+  destruct (parse_symbol A kw_blank c_box [c_underscore]) as [blank|]; [|reflexivity].
+  assert (Hl : In l (map (fun t : token * token * token => let '(_, a, _) := t in a) (a_trans A))).
+  { apply in_map_iff. exists (p, l, q). split; [reflexivity | exact Ht]. }
+  destruct Hn as [Hn|Hn].
+  - rewrite (get_symbol_set_undeclared A kw_tape_symbols decl _ (lbl l 0) Hlk); [reflexivity | | exact Hn].
+    apply dedup_In. apply in_flat_map. exists l. split; [exact Hl | cbn; auto].
+  - rewrite (get_symbol_set_undeclared A kw_tape_symbols decl _ (lbl l 1) Hlk); [reflexivity | | exact Hn].
+    apply dedup_In. apply in_flat_map. exists l. split; [exact Hl | cbn; auto].
+Qed.
+
+(* B7: DFA determinism and totality *)
+Definition dfa_keys (A : automaton) : list (token * token) := map (fun t => let '(p, a, _) := t in (p, a)) (a_trans A).
+
+Theorem nondeterministic_rejected : forall sre A, ~ NoDup (dfa_keys A) -> build_dfa sre A = None.
+Proof.
+  intros sre A Hn. unfold build_dfa.
+  destruct (negb (check_common sre (states_or_used A) A)); [reflexivity|].
+  fold (dfa_keys A).
+  destruct (Nat.eqb (length (dedup (dfa_keys A))) (length (dfa_keys A))) eqn:E; [|reflexivity].
+  apply Nat.eqb_eq, dedup_length_NoDup in E. contradiction.
+Qed.
+
+Theorem nondeterministic_rejected_two : forall sre A t1 t2 t3 p a q1 q2,
+  a_trans A = t1 ++ (p, a, q1) :: t2 ++ (p, a, q2) :: t3 -> build_dfa sre A = None.
+Proof.
+  intros sre A t1 t2 t3 p a q1 q2 Ht. apply nondeterministic_rejected.
+  unfold dfa_keys. rewrite Ht, map_app. cbn [map]. rewrite map_app. cbn [map].
+  intros Hn. apply NoDup_remove_2 in Hn. apply Hn. rewrite !in_app_iff. cbn [In]. tauto.
+Qed.
+
+Theorem not_total_rejected : forall sre A sigma p a,
+  get_symbol_set A kw_input_symbols (dedup (map snd (dfa_keys A))) = Some sigma ->
+  In p (states_or_used A) -> In a sigma -> (forall q, ~ In (p, a, q) (a_trans A)) ->
+  build_dfa sre A = None.
+Proof.
+  intros sre A sigma p a Hs Hp Ha Hno. unfold build_dfa.
+  destruct (negb (check_common sre (states_or_used A) A)); [reflexivity|].
+  destruct (negb (Nat.eqb _ _)); [reflexivity|].
+  fold (dfa_keys A). rewrite Hs.
+  destruct (negb (forallb re_word sigma)); [reflexivity|].
+  match goal with |- (if negb ?b then _ else _) = _ => destruct b eqn:E end; [|reflexivity].
+  exfalso. rewrite forallb_forall in E. specialize (E p Hp). rewrite forallb_forall in E. specialize (E a Ha).
+  apply mem_In in E. unfold dfa_keys in E. apply in_map_iff in E. destruct E as [[[p' a'] q] [E Hin]].
+  inversion E; subst. apply (Hno q). exact Hin.
+Qed.
+
+(* ------------------------------------------------------------------ *)
+(* Part C: insensitivity to layout                                     *)
+(* ------------------------------------------------------------------ *)
+(* C.1 comment lines and blank lines *)
+Lemma parse_line_comment sre lre kw oA l : is_comment l = true -> parse_line sre lre kw oA l = oA.
+Proof.
+  intros Hc. destruct oA as [A|]; [|reflexivity].
+  destruct l as [|w0 ws]; [reflexivity|]. cbn [is_comment] in Hc. unfold starts_percent in Hc.
+  cbn [parse_line]. rewrite Hc. reflexivity.
+Qed.
+
+Theorem comment_line_irrelevant : forall sre lre kw t1 l t2,
+  is_comment l = true -> parse_automaton sre lre kw (t1 ++ l :: t2) = parse_automaton sre lre kw (t1 ++ t2).
+Proof.
+  intros sre lre kw t1 l t2 Hc. rewrite !parse_automaton_app. cbn [fold_left].
+  rewrite (parse_line_comment _ _ _ _ _ Hc). reflexivity.
+Qed.
+
+Theorem comments_irrelevant : forall sre lre kw text,
+  parse_automaton sre lre kw (filter (fun l => negb (is_comment l)) text) = parse_automaton sre lre kw text.
+Proof.
+  intros sre lre kw text. unfold parse_automaton. generalize (Some (mkAut [] [] [] [] [])).
+  induction text as [|l text IH]; intros oA; [reflexivity|].
+  cbn [filter fold_left]. destruct (is_comment l) eqn:Hc; cbn [negb].
+  - rewrite (parse_line_comment _ _ _ _ _ Hc). apply IH.
+  - cbn [fold_left]. apply IH.
+Qed.
+
+Corollary comments_irrelevant_parsers : forall text,
+  let text' := filter (fun l => negb (is_comment l)) text in
+  (forall sre, parse_dfa_with sre text' = parse_dfa_with sre text) /\ parse_nfa text' = parse_nfa text /\
+  parse_pda text' = parse_pda text /\ parse_tm text' = parse_tm text.
+Proof.
+  intros text text'. unfold text'.
+  repeat split; [intros sre; rewrite !parse_dfa_with_unfold | rewrite !parse_nfa_unfold | rewrite !parse_pda_unfold | rewrite !parse_tm_unfold];
+    rewrite comments_irrelevant; reflexivity.
+Qed.
+
+(* C.2 splitting the labels of a transition line over two lines *)
+Lemma parse_line_split sre lre kw oA p q l1 l2 :
+  is_trans kw [p] = true -> l1 <> [] -> l2 <> [] ->
+  parse_line sre lre kw (parse_line sre lre kw oA (p :: q :: l1)) (p :: q :: l2) =
+  parse_line sre lre kw oA (p :: q :: l1 ++ l2).
+Proof.
+  intros Ht H1 H2. destruct oA as [A|]; [|reflexivity].
+  apply is_trans_cons in Ht. destruct Ht as [Hp Hr].
+  apply is_reserved_false in Hr. destruct Hr as [Hs [Hf [Hi Hk]]]. unfold starts_percent in Hp.
+  destruct l1 as [|a1 l1]; [contradiction|]. destruct l2 as [|a2 l2]; [contradiction|].
+  cbn [parse_line app]. rewrite Hp, Hs, Hf, Hi, Hk.
+  change (forallb lre (a1 :: l1 ++ a2 :: l2)) with (forallb lre ((a1 :: l1) ++ a2 :: l2)). rewrite forallb_app.
+  destruct (sre p) eqn:Esp; cbn [andb]; [|reflexivity].
+  destruct (sre q) eqn:Esq; cbn [andb]; [|reflexivity].
+  destruct (forallb lre (a1 :: l1)); cbn [andb]; [|reflexivity].
+  cbn [parse_line]. rewrite Hp, Hs, Hf, Hi, Hk, Esp, Esq. cbn [andb].
+  destruct (forallb lre (a2 :: l2)); [|reflexivity].
+  cbn [a_states a_trans a_init a_final a_items].
+  change (a1 :: l1 ++ a2 :: l2) with ((a1 :: l1) ++ a2 :: l2). rewrite map_app, app_assoc. reflexivity.
+Qed.
+
+Theorem label_split_irrelevant : forall sre lre kw t1 t2 p q l1 l2,
+  is_trans kw [p] = true -> l1 <> [] -> l2 <> [] ->
+  parse_automaton sre lre kw (t1 ++ (p :: q :: l1) :: (p :: q :: l2) :: t2) =
+  parse_automaton sre lre kw (t1 ++ (p :: q :: l1 ++ l2) :: t2).
+Proof.
+  intros sre lre kw t1 t2 p q l1 l2 Ht H1 H2. rewrite !parse_automaton_app. cbn [fold_left].
+  rewrite (parse_line_split sre lre kw _ p q l1 l2 Ht H1 H2). reflexivity.
+Qed.
+
+(* C.3 the order of the lines matters only for the order of a_trans / a_items *)
+Definition aut_equiv (A B : automaton) : Prop :=
+  a_states A = a_states B /\ a_init A = a_init B /\ a_final A = a_final B /\
+  Permutation (a_trans A) (a_trans B) /\ Permutation (a_items A) (a_items B) /\
+  (forall k, lookup k (a_items A) = lookup k (a_items B)).
+Definition opt_rel {X} (R : X -> X -> Prop) (o1 o2 : option X) : Prop :=
+  match o1, o2 with Some x, Some y => R x y | None, None => True | _, _ => False end.
+
+Lemma lookup_perm {K V} `{Eqb K} (k : K) (m m' : list (K * V)) :
+  NoDup (map fst m) -> Permutation m m' -> lookup k m = lookup k m'.
+Proof.
+  intros Hn Hp.
+  assert (Hn' : NoDup (map fst m')) by (apply (Permutation_NoDup (Permutation_map fst Hp)); exact Hn).
+  destruct (lookup k m) as [v|] eqn:E.
+  - symmetry. apply lookup_NoDup_In; [exact Hn'|]. apply (Permutation_in _ Hp). apply lookup_In; exact E.
+  - symmetry. apply lookup_None. intros v Hc. rewrite lookup_None in E. apply (E v).
+    apply (Permutation_in _ (Permutation_sym Hp)). exact Hc.
+Qed.
+
+Lemma forallb_perm {X} (f : X -> bool) l l' : Permutation l l' -> forallb f l = forallb f l'.
+Proof.
+  intros Hp. destruct (forallb f l) eqn:E; symmetry.
+  - rewrite forallb_forall in *. intros x Hx. apply E. apply (Permutation_in _ (Permutation_sym Hp)); exact Hx.
+  - destruct (forallb f l') eqn:E'; [|reflexivity]. rewrite forallb_forall in E'.
+    assert (Hc : forallb f l = true).
+    { apply forallb_forall. intros x Hx. apply E'. apply (Permutation_in _ Hp); exact Hx. }
+    congruence.
+Qed.
+
+Lemma has_dup_perm l l' : Permutation l l' -> has_dup l = has_dup l'.
+Proof.
+  intros Hp. destruct (has_dup l) eqn:E; symmetry.
+  - destruct (has_dup l') eqn:E'; [reflexivity|]. apply has_dup_NoDup in E'.
+    apply (Permutation_NoDup (Permutation_sym Hp)) in E'. apply has_dup_NoDup in E'. congruence.
+  - apply has_dup_NoDup. apply has_dup_NoDup in E. apply (Permutation_NoDup Hp E).
+Qed.
+
+Lemma text_ok_perm sre lre kw t t' : Permutation t t' -> text_ok sre lre kw t = text_ok sre lre kw t'.
+Proof.
+  intros Hp. unfold text_ok. rewrite (forallb_perm _ _ _ Hp). f_equal. f_equal.
+  apply has_dup_perm. apply Permutation_map. unfold decls. apply Permutation_flat_map; exact Hp.
+Qed.
+
+Theorem line_order_irrelevant : forall sre lre kw text text',
+  Permutation text text' ->
+  opt_rel aut_equiv (parse_automaton sre lre kw text) (parse_automaton sre lre kw text').
+Proof.
+  intros sre lre kw text text' Hp. rewrite !parse_automaton_spec, <- (text_ok_perm sre lre kw _ _ Hp).
+  unfold text_ok. destruct (forallb (line_ok sre lre kw) text); cbn [andb opt_rel]; [|exact I].
+  destruct (has_dup (map fst (decls kw text))) eqn:Hd; cbn [negb opt_rel]; [exact I|].
+  apply has_dup_NoDup in Hd.
+  assert (Hpd : Permutation (decls kw text) (decls kw text')) by (apply Permutation_flat_map; exact Hp).
+  unfold aut_equiv, text_aut, field. cbn [a_states a_init a_final a_trans a_items].
+  rewrite <- !(lookup_perm _ _ _ Hd Hpd). repeat split.
+  - apply Permutation_flat_map; exact Hp.
+  - exact Hpd.
+  - intros k. apply lookup_perm; assumption.
+Qed.
+
+(* ------------------------------------------------------------------ *)
+(* Part D: print / parse round trips                                   *)
+(* ------------------------------------------------------------------ *)
+Lemma filter_all {X} (f : X -> bool) l : (forall x, In x l -> f x = true) -> filter f l = l.
+Proof.
+  induction l as [|x l IH]; intros Hf; [reflexivity|].
+  cbn [filter]. rewrite (Hf x (or_introl eq_refl)). f_equal. apply IH. intros y Hy. apply Hf. right; exact Hy.
+Qed.
+
+Lemma filter_or_perm {X} (f g : X -> bool) l :
+  (forall x, In x l -> f x = true -> g x = false) ->
+  Permutation (filter f l ++ filter g l) (filter (fun x => f x || g x) l).
+Proof.
+  induction l as [|x l IH]; intros Hd; [constructor|].
+  assert (IH' : Permutation (filter f l ++ filter g l) (filter (fun x => f x || g x) l)).
+  { apply IH. intros y Hy. apply Hd. right; exact Hy. }
+  cbn [filter]. destruct (f x) eqn:Ef; cbn [orb].
+  - rewrite (Hd x (or_introl eq_refl) Ef). cbn [app]. constructor. exact IH'.
+  - destruct (g x); [|exact IH'].
+    apply Permutation_sym. apply Permutation_cons_app. apply Permutation_sym. exact IH'.
+Qed.
+
+Lemma flat_map_filter_perm {X K} `{Eqb K} (key : X -> K) (L : list K) (l : list X) :
+  NoDup L ->
+  Permutation (flat_map (fun k => filter (fun t => eqb (key t) k) l) L) (filter (fun t => mem (key t) L) l).
+Proof.
+  induction L as [|k L IH]; intros Hn.
+  - cbn [flat_map mem existsb]. induction l as [|x l IHl]; [constructor | exact IHl].
+  - inversion Hn as [|k' L' Hk HL]; subst. cbn [flat_map].
+    eapply Permutation_trans; [apply Permutation_app_head; apply IH; exact HL|].
+    apply (filter_or_perm (fun t => eqb (key t) k) (fun t => mem (key t) L)).
+    intros x _ Ex. apply eqb_true in Ex. subst k. apply mem_nIn. exact Hk.
+Qed.
+
+Lemma flat_map_ext_in {X Y} (f g : X -> list Y) l : (forall x, In x l -> f x = g x) -> flat_map f l = flat_map g l.
+Proof.
+  induction l as [|x l IH]; intros He; [reflexivity|].
+  cbn [flat_map]. rewrite (He x (or_introl eq_refl)). f_equal. apply IH. intros y Hy. apply He. right; exact Hy.
+Qed.
+
+Lemma flat_map_map {X Y Z} (f : Y -> list Z) (g : X -> Y) l : flat_map f (map g l) = flat_map (fun x => f (g x)) l.
+Proof. induction l as [|x l IH]; [reflexivity|]. cbn [map flat_map]. rewrite IH. reflexivity. Qed.
+
+Lemma flat_map_nil {X Y} (f : X -> list Y) l : (forall x, In x l -> f x = []) -> flat_map f l = [].
+Proof.
+  induction l as [|x l IH]; intros He; [reflexivity|].
+  cbn [flat_map]. rewrite (He x (or_introl eq_refl)). apply IH. intros y Hy. apply He. right; exact Hy.
+Qed.
+
+Definition pair_of (t : token * token * token) : token * token := let '(p, _, q) := t in (p, q).
+Definition label_of (t : token * token * token) : token := let '(_, a, _) := t in a.
+
+Section GroupLines.
+  Variable ordP : list (token * token) -> list (token * token).
+  Hypothesis ordP_perm : forall l, Permutation (ordP l) l.
+  Variables (sre lre : token -> bool) (kw : list token).
+
+  Definition pairs_of (trs : list (token * token * token)) : list (token * token) := ordP (dedup (map pair_of trs)).
+  Definition regroup (trs : list (token * token * token)) : list (token * token * token) :=
+    flat_map (fun pq => filter (fun t => eqb (pair_of t) pq) trs) (pairs_of trs).
+
+  Lemma group_lines_unfold trs :
+    group_lines ordP trs =
+    map (fun pq => fst pq :: snd pq :: map label_of (filter (fun t => eqb (pair_of t) pq) trs)) (pairs_of trs).
+  Proof.
+    unfold group_lines, pairs_of. apply map_ext. intros pq. f_equal. f_equal. f_equal.
+    apply filter_ext. intros [[p a] q]. reflexivity.
+  Qed.
+
+  Lemma pairs_of_In trs pq : In pq (pairs_of trs) <-> exists t, In t trs /\ pair_of t = pq.
+  Proof.
+    unfold pairs_of. split.
+    - intros Hin. apply (Permutation_in _ (ordP_perm _)) in Hin. apply dedup_In, in_map_iff in Hin.
+      destruct Hin as [t [E Ht]]. exists t. auto.
+    - intros [t [Ht E]]. apply (Permutation_in _ (Permutation_sym (ordP_perm _))).
+      apply dedup_In, in_map_iff. exists t. auto.
+  Qed.
+
+  Lemma pairs_of_NoDup trs : NoDup (pairs_of trs).
+  Proof. unfold pairs_of. apply (Permutation_NoDup (Permutation_sym (ordP_perm _))). apply dedup_NoDup. Qed.
+
+  Lemma regroup_perm trs : Permutation (regroup trs) trs.
+  Proof.
+    unfold regroup.
+    eapply Permutation_trans; [apply (flat_map_filter_perm pair_of (pairs_of trs) trs (pairs_of_NoDup trs))|].
+    rewrite filter_all; [apply Permutation_refl|].
+    intros t Ht. apply mem_In. apply pairs_of_In. exists t. auto.
+  Qed.
+
+  Lemma regroup_line trs pq :
+    map (fun a => (fst pq, a, snd pq)) (map label_of (filter (fun t => eqb (pair_of t) pq) trs)) =
+    filter (fun t => eqb (pair_of t) pq) trs.
+  Proof.
+    rewrite map_map. rewrite <- (map_id (filter _ trs)) at 2. apply map_ext_in.
+    intros [[p a] q] Hin. apply filter_In in Hin. destruct Hin as [_ E]. apply eqb_true in E. subst pq. reflexivity.
+  Qed.
+
+  Lemma group_lines_transs trs :
+    (forall p a q, In (p, a, q) trs -> is_trans kw [p] = true) ->
+    transs kw (group_lines ordP trs) = regroup trs.
+  Proof.
+    intros Hsrc. rewrite group_lines_unfold. unfold transs, regroup. rewrite flat_map_map.
+    apply flat_map_ext_in. intros [p q] Hin. cbn [fst snd].
+    apply pairs_of_In in Hin. destruct Hin as [[[p' a] q'] [Ht E]]. cbn in E. inversion E; subst p' q'.
+    unfold trans_of.
+    assert (Hit : is_trans kw (p :: q :: map label_of (filter (fun t => eqb (pair_of t) (p, q)) trs)) = true).
+    { apply is_trans_cons. apply (is_trans_cons kw p []). apply (Hsrc p a q Ht). }
+    rewrite Hit. apply (regroup_line trs (p, q)).
+  Qed.
+
+  Lemma group_lines_decls trs :
+    (forall p a q, In (p, a, q) trs -> is_trans kw [p] = true) ->
+    decls kw (group_lines ordP trs) = [].
+  Proof.
+    intros Hsrc. rewrite group_lines_unfold. unfold decls. rewrite flat_map_map.
+    apply flat_map_nil. intros [p q] Hin. cbn [fst snd].
+    apply pairs_of_In in Hin. destruct Hin as [[[p' a] q'] [Ht E]]. cbn in E. inversion E; subst p' q'.
+    specialize (Hsrc p a q Ht). unfold decl_of.
+    unfold is_trans in Hsrc. apply andb_true_iff in Hsrc. destruct Hsrc as [_ Hd].
+    apply negb_true_iff in Hd. unfold is_decl in *. rewrite Hd. reflexivity.
+  Qed.
+
+  Lemma group_lines_ok trs :
+    (forall p a q, In (p, a, q) trs -> is_trans kw [p] = true /\ sre p = true /\ sre q = true /\ lre a = true) ->
+    forallb (line_ok sre lre kw) (group_lines ordP trs) = true.
+  Proof.
+    intros Hsrc. rewrite group_lines_unfold. apply forallb_forall. intros l Hl.
+    apply in_map_iff in Hl. destruct Hl as [[p q] [<- Hin]]. cbn [fst snd].
+    apply pairs_of_In in Hin. destruct Hin as [[[p' a] q'] [Ht E]]. cbn in E. inversion E; subst p' q'.
+    destruct (Hsrc p a q Ht) as [Hit [Hp [Hq Ha]]].
+    rewrite line_ok_trans; [|apply is_trans_cons; apply (is_trans_cons kw p []); exact Hit].
+    assert (Hin : In a (map label_of (filter (fun t => eqb (pair_of t) (p, q)) trs))).
+    { apply in_map_iff. exists (p, a, q). split; [reflexivity|]. apply filter_In. split; [exact Ht | apply eqb_refl]. }
+    assert (Hall : forallb lre (map label_of (filter (fun t => eqb (pair_of t) (p, q)) trs)) = true).
+    { apply forallb_forall. intros b Hb. apply in_map_iff in Hb. destruct Hb as [[[p1 b1] q1] [<- Hb]].
+      apply filter_In in Hb. destruct Hb as [Hb _]. apply (Hsrc p1 b1 q1 Hb). }
+    destruct (map label_of (filter (fun t => eqb (pair_of t) (p, q)) trs)) as [|l1 lrest]; [destruct Hin|].
+    rewrite Hp, Hq, Hall. reflexivity.
+  Qed.
+
+  (* a printed text = declaration header followed by the grouped transition lines *)
+  Lemma parse_printed header trs :
+    (forall l, In l header -> is_decl kw l = true /\ line_ok sre lre kw l = true) ->
+    NoDup (map fst (decls kw header)) ->
+    (forall p a q, In (p, a, q) trs -> is_trans kw [p] = true /\ sre p = true /\ sre q = true /\ lre a = true) ->
+    parse_automaton sre lre kw (header ++ group_lines ordP trs) =
+    Some (mkAut (field kw_states (decls kw header) []) (regroup trs) (field kw_initial (decls kw header) [])
+                (field kw_final (decls kw header) []) (decls kw header)).
+  Proof.
+    intros Hh Hn Htrs.
+    assert (Hsrc : forall p a q, In (p, a, q) trs -> is_trans kw [p] = true) by (intros p a q Hin; apply (Htrs p a q Hin)).
+    rewrite parse_automaton_spec. unfold text_ok, text_aut.
+    rewrite decls_app, transs_app, forallb_app, (group_lines_decls trs Hsrc), (group_lines_transs trs Hsrc), app_nil_r.
+    rewrite (group_lines_ok trs Htrs), andb_true_r.
+    assert (Hok : forallb (line_ok sre lre kw) header = true).
+    { apply forallb_forall. intros l Hl. apply (Hh l Hl). }
+    rewrite Hok. apply has_dup_NoDup in Hn. rewrite Hn. cbn [andb negb].
+    assert (Ht : transs kw header = []).
+    { unfold transs. apply flat_map_nil. intros l Hl. destruct (Hh l Hl) as [Hd _].
+      unfold trans_of, is_trans. rewrite Hd, andb_false_r. reflexivity. }
+    rewrite Ht. reflexivity.
+  Qed.
+End GroupLines.
+
+(* ---- DFA ---- *)
+Lemma states_or_used_decl A : a_states A <> [] -> states_or_used A = a_states A.
+Proof. unfold states_or_used. destruct (a_states A); [contradiction | reflexivity]. Qed.
+
+Lemma check_common_intro sre st A q0 :
+  incl (used_states A) st -> (forall s, In s st -> sre s = true) -> a_init A = [q0] -> check_common sre st A = true.
+Proof.
+  intros Hu Hs Hi. unfold check_common. rewrite Hi.
+  rewrite (proj2 (subsetb_incl _ _) Hu), (proj2 (forallb_forall _ _) Hs). reflexivity.
+Qed.
+
+Definition dfa_delta_of (trs : list (token * token * token)) : list ((token * token) * token) :=
+  map (fun t => let '(p, a, q) := t in ((p, a), q)) trs.
+
+Lemma dfa_delta_of_In trs p a q : In ((p, a), q) (dfa_delta_of trs) <-> In (p, a, q) trs.
+Proof.
+  unfold dfa_delta_of. rewrite in_map_iff. split.
+  - intros [[[p' a'] q'] [E Hin]]. inversion E; subst. exact Hin.
+  - intros Hin. exists (p, a, q). auto.
+Qed.
+
+Lemma build_dfa_intro sre A q0 decl :
+  a_states A <> [] -> incl (used_states A) (a_states A) -> (forall s, In s (a_states A) -> sre s = true) ->
+  a_init A = [q0] -> NoDup (dfa_keys A) -> lookup kw_input_symbols (a_items A) = Some decl ->
+  (forall p a q, In (p, a, q) (a_trans A) -> In a decl) -> (forall a, In a decl -> re_word a = true) ->
+  (forall p a, In p (a_states A) -> In a decl -> exists q, In (p, a, q) (a_trans A)) ->
+  build_dfa sre A = Some (mkTDFA (a_states A) (dedup decl) (dfa_delta_of (a_trans A)) q0 (a_final A)).
+Proof.
+  intros Hne Hu Hs Hi Hn Hl Hsym Hre Htot.
+  unfold build_dfa. rewrite (states_or_used_decl _ Hne), (check_common_intro sre _ A q0 Hu Hs Hi). cbn [negb].
+  fold (dfa_keys A).
+  rewrite (proj2 (Nat.eqb_eq _ _) (proj2 (dedup_length_NoDup _) Hn)). cbn [negb].
+  unfold get_symbol_set. rewrite Hl.
+  assert (Hsub : subsetb (dedup (map snd (dfa_keys A))) (dedup decl) = true).
+  { apply subsetb_incl. intros a Ha. apply dedup_In. rewrite dedup_In in Ha. unfold dfa_keys in Ha.
+    rewrite map_map in Ha. apply in_map_iff in Ha. destruct Ha as [[[p a'] q] [E Hin]]. cbn in E. subst a'.
+    apply (Hsym p a q Hin). }
+  rewrite Hsub.
+  assert (Hw : forallb re_word (dedup decl) = true).
+  { apply forallb_forall. intros a Ha. apply Hre. rewrite dedup_In in Ha. exact Ha. }
+  rewrite Hw. cbn [negb].
+  assert (Ht : forallb (fun p => forallb (fun a => mem (p, a) (dfa_keys A)) (dedup decl)) (a_states A) = true).
+  { apply forallb_forall. intros p Hp. apply forallb_forall. intros a Ha. rewrite dedup_In in Ha.
+    destruct (Htot p a Hp Ha) as [q Hq]. apply mem_In. unfold dfa_keys. apply in_map_iff. exists (p, a, q). auto. }
+  rewrite Ht. cbn [negb]. rewrite Hi. cbn [hd]. fold (dfa_delta_of (a_trans A)).
+  assert (Hwf : tdfa_wf_b (mkTDFA (a_states A) (dedup decl) (dfa_delta_of (a_trans A)) q0 (a_final A)) = true).
+  { unfold tdfa_wf_b. cbn [tdQ tdS tdD tdq0 tdF]. rewrite !andb_true_iff. repeat split.
+    - apply mem_In. apply Hu. apply used_states_In. left. rewrite Hi. left; reflexivity.
+    - apply subsetb_incl. intros s Hsf. apply Hu. apply used_states_In. right; left. exact Hsf.
+    - apply forallb_forall. intros [[p a] q] Hin. apply (proj1 (dfa_delta_of_In _ _ _ _)) in Hin.
+      rewrite !andb_true_iff, !mem_In. repeat split.
+      + apply Hu. apply used_states_In. right; right. exists p, a, q. auto.
+      + apply dedup_In. apply (Hsym p a q Hin).
+      + apply Hu. apply used_states_In. right; right. exists p, a, q. auto.
+    - apply forallb_forall. intros p Hp. apply forallb_forall. intros a Ha. rewrite dedup_In in Ha.
+      destruct (Htot p a Hp Ha) as [q Hq].
+      destruct (lookup (p, a) (dfa_delta_of (a_trans A))) eqn:E; [reflexivity|].
+      exfalso. rewrite lookup_None in E. apply (E q). apply (proj2 (dfa_delta_of_In _ _ _ _)). exact Hq. }
+  rewrite Hwf. reflexivity.
+Qed.
+
+Definition tdfa_equiv (D D' : tdfa) : Prop :=
+  seteq (tdQ D) (tdQ D') /\ seteq (tdS D) (tdS D') /\ seteq (tdD D) (tdD D') /\
+  (forall k, lookup k (tdD D) = lookup k (tdD D')) /\ tdq0 D = tdq0 D' /\ seteq (tdF D) (tdF D').
+
+Lemma re_word_not_percent q : re_word q = true -> starts_percent q = false.
+Proof.
+  destruct q as [|c q]; [discriminate|]. cbn [re_word forallb starts_percent]. intros Hw.
+  apply andb_true_iff in Hw. destruct Hw as [Hc _].
+  destruct (Nat.eqb c c_percent) eqn:E; [|reflexivity]. apply Nat.eqb_eq in E. subst c. discriminate.
+Qed.
+
+Lemma re_word_re_any a : re_word a = true -> re_any a = true.
+Proof. destruct a; [discriminate | reflexivity]. Qed.
+
+Lemma good_state_trans kw q : re_word q = true -> is_reserved kw q = false -> is_trans kw [q] = true.
+Proof. intros Hw Hr. apply is_trans_cons. split; [apply re_word_not_percent; exact Hw | exact Hr]. Qed.
+
+Lemma seteq_perm {X} (l l' : list X) : Permutation l l' -> seteq l l'.
+Proof.
+  intros Hp x. split; [apply (Permutation_in _ Hp) | apply (Permutation_in _ (Permutation_sym Hp))].
+Qed.
+
+Lemma perm_has_dup_false l l' : Permutation l' l -> NoDup l -> has_dup l' = false.
+Proof. intros Hp Hn. apply has_dup_NoDup. apply (Permutation_NoDup (Permutation_sym Hp) Hn). Qed.
+
+Lemma forallb_perm_true {X} (f : X -> bool) l l' : Permutation l' l -> (forall x, In x l -> f x = true) -> forallb f l' = true.
+Proof. intros Hp Hf. apply forallb_forall. intros x Hx. apply Hf. apply (Permutation_in _ Hp Hx). Qed.
+
+Section RoundTrip.
+  Variable ord : list token -> list token.
+  Variable ordP : list (token * token) -> list (token * token).
+  Hypothesis ord_perm : forall l, Permutation (ord l) l.
+  Hypothesis ordP_perm : forall l, Permutation (ordP l) l.
+
+  Definition dfa_trs (D : tdfa) : list (token * token * token) := map (fun e => let '((p, a), q) := e in (p, a, q)) (tdD D).
+
+  Lemma dfa_trs_In D p a q : In (p, a, q) (dfa_trs D) <-> In ((p, a), q) (tdD D).
+  Proof.
+    unfold dfa_trs. rewrite in_map_iff. split.
+    - intros [[[p' a'] q'] [E Hin]]. inversion E; subst. exact Hin.
+    - intros Hin. exists ((p, a), q). auto.
+  Qed.
+
+  Lemma dfa_delta_of_trs D : dfa_delta_of (dfa_trs D) = tdD D.
+  Proof.
+    unfold dfa_delta_of, dfa_trs. rewrite map_map. rewrite <- (map_id (tdD D)) at 2.
+    apply map_ext. intros [[p a] q]. reflexivity.
+  Qed.
+
+  Theorem print_parse_dfa : forall D,
+    tdfa_wf_b D = true -> NoDup (tdQ D) -> NoDup (tdF D) -> NoDup (map fst (tdD D)) ->
+    (forall q, In q (tdQ D) -> re_word q = true /\ is_reserved kw_dfa q = false) ->
+    (forall a, In a (tdS D) -> re_word a = true) ->
+    exists D', parse_dfa (print_dfa ord ordP D) = Some D' /\ tdfa_equiv D D'.
+  Proof.
+    intros D Hwf HnQ HnF HnD HQ HS.
+    unfold tdfa_wf_b in Hwf. rewrite !andb_true_iff in Hwf. destruct Hwf as [[[Hq0 HF] HD] Htot].
+    apply mem_In in Hq0. apply subsetb_incl in HF. rewrite forallb_forall in HD, Htot.
+    assert (HDs : forall p a q, In ((p, a), q) (tdD D) -> In p (tdQ D) /\ In a (tdS D) /\ In q (tdQ D)).
+    { intros p a q Hin. specialize (HD _ Hin). cbn in HD. rewrite !andb_true_iff, !mem_In in HD. tauto. }
+    set (header := [kw_states :: ord (tdQ D); kw_final :: ord (tdF D); [kw_initial; tdq0 D]; kw_input_symbols :: ord (tdS D)]).
+    set (items := [(kw_states, ord (tdQ D)); (kw_final, ord (tdF D)); (kw_initial, [tdq0 D]); (kw_input_symbols, ord (tdS D))]).
+    assert (Hdecl : decls kw_dfa header = items) by reflexivity.
+    assert (HordQ : ord (tdQ D) <> []).
+    { intros E. pose proof (Permutation_in _ (Permutation_sym (ord_perm (tdQ D))) Hq0) as Hc. rewrite E in Hc. destruct Hc. }
+    assert (Hparse : parse_automaton re_word re_any kw_dfa (print_dfa ord ordP D) =
+                     Some (mkAut (ord (tdQ D)) (regroup ordP (dfa_trs D)) [tdq0 D] (ord (tdF D)) items)).
+    { change (print_dfa ord ordP D) with (header ++ group_lines ordP (dfa_trs D)).
+      refine (eq_trans (parse_printed ordP ordP_perm re_word re_any kw_dfa header (dfa_trs D) _ _ _) _).
+      4:{ rewrite Hdecl. reflexivity. }
+      - intros l Hl. split.
+        + cbn in Hl. destruct Hl as [<-|[<-|[<-|[<-|[]]]]]; reflexivity.
+        + cbn [header In] in Hl. destruct Hl as [<-|[<-|[<-|[<-|[]]]]].
+          * unfold line_ok. cbn [starts_percent]. change (eqb kw_states kw_states) with true. cbv iota.
+            rewrite (perm_has_dup_false _ _ (ord_perm _) HnQ).
+            rewrite (forallb_perm_true re_word _ _ (ord_perm _) (fun q Hq => proj1 (HQ q Hq))).
+            destruct (ord (tdQ D)); [contradiction | reflexivity].
+          * unfold line_ok. cbn [starts_percent]. change (eqb kw_final kw_states) with false. change (eqb kw_final kw_final) with true. cbv iota. cbn [orb].
+            rewrite (perm_has_dup_false _ _ (ord_perm _) HnF).
+            rewrite (forallb_perm_true re_word (tdF D) _ (ord_perm _)); [reflexivity|].
+            intros q Hq. apply (HQ q (HF q Hq)).
+          * unfold line_ok. cbn [starts_percent]. change (eqb kw_initial kw_states) with false. change (eqb kw_initial kw_final) with false.
+            change (eqb kw_initial kw_initial) with true. cbv iota. cbn [orb has_dup mem existsb negb forallb andb].
+            rewrite (proj1 (HQ _ Hq0)). reflexivity.
+          * reflexivity.
+      - rewrite Hdecl. cbn [map fst items]. apply has_dup_NoDup. reflexivity.
+      - intros p a q Hin. apply (proj1 (dfa_trs_In _ _ _ _)) in Hin. destruct (HDs p a q Hin) as [Hp [Ha Hq]].
+        destruct (HQ p Hp) as [Hpw Hpr]. destruct (HQ q Hq) as [Hqw _].
+        repeat split; [apply good_state_trans; assumption | exact Hpw | exact Hqw | apply re_word_re_any, HS, Ha]. }
+    pose proof (regroup_perm ordP ordP_perm (dfa_trs D)) as Hperm.
+    set (A := mkAut (ord (tdQ D)) (regroup ordP (dfa_trs D)) [tdq0 D] (ord (tdF D)) items) in *.
+    assert (HinT : forall p a q, In (p, a, q) (a_trans A) <-> In ((p, a), q) (tdD D)).
+    { intros p a q. cbn [A a_trans]. rewrite <- dfa_trs_In. apply (seteq_perm _ _ Hperm). }
+    assert (HordQ_In : forall q, In q (ord (tdQ D)) <-> In q (tdQ D)) by (intros q; apply (seteq_perm _ _ (ord_perm _))).
+    assert (HordF_In : forall q, In q (ord (tdF D)) <-> In q (tdF D)) by (intros q; apply (seteq_perm _ _ (ord_perm _))).
+    assert (HordS_In : forall q, In q (ord (tdS D)) <-> In q (tdS D)) by (intros q; apply (seteq_perm _ _ (ord_perm _))).
+    assert (Hbuild : build_dfa re_word A = Some (mkTDFA (a_states A) (dedup (ord (tdS D))) (dfa_delta_of (a_trans A)) (tdq0 D) (a_final A))).
+    { apply build_dfa_intro.
+      - exact HordQ.
+      - intros s Hs. apply used_states_In in Hs. cbn [A a_states a_init a_final] in *. apply HordQ_In.
+        destruct Hs as [[<-|[]]|[Hs|[p [a [q [Ht Hs]]]]]].
+        + exact Hq0.
+        + apply HF, HordF_In, Hs.
+        + apply (proj1 (HinT _ _ _)) in Ht. destruct (HDs p a q Ht) as [Hp [_ Hq]]. destruct Hs as [-> | ->]; assumption.
+      - intros s Hs. apply HordQ_In in Hs. apply (HQ s Hs).
+      - reflexivity.
+      - unfold dfa_keys. cbn [A a_trans].
+        assert (Hk : Permutation (map (fun t : token * token * token => let '(p, a, _) := t in (p, a)) (regroup ordP (dfa_trs D))) (map fst (tdD D))).
+        { eapply Permutation_trans; [apply Permutation_map; exact Hperm|].
+          unfold dfa_trs. rewrite map_map. erewrite map_ext; [apply Permutation_refl|]. intros [[p a] q]. reflexivity. }
+        apply (Permutation_NoDup (Permutation_sym Hk) HnD).
+      - reflexivity.
+      - intros p a q Hin. apply (proj1 (HinT _ _ _)) in Hin. apply HordS_In. apply (HDs p a q Hin).
+      - intros a Ha. apply HS, HordS_In, Ha.
+      - intros p a Hp Ha. cbn [A a_states] in Hp. apply HordQ_In in Hp. apply HordS_In in Ha.
+        specialize (Htot p Hp). rewrite forallb_forall in Htot. specialize (Htot a Ha).
+        destruct (lookup (p, a) (tdD D)) as [q|] eqn:E; [|discriminate].
+        exists q. apply (proj2 (HinT _ _ _)). apply lookup_In. exact E. }
+    eexists. split.
+    - unfold parse_dfa. rewrite parse_dfa_with_unfold, Hparse. exact Hbuild.
+    - unfold tdfa_equiv. cbn [tdQ tdS tdD tdq0 tdF A a_states a_final a_trans].
+      assert (HpD : Permutation (tdD D) (dfa_delta_of (regroup ordP (dfa_trs D)))).
+      { rewrite <- (dfa_delta_of_trs D) at 1. unfold dfa_delta_of. apply Permutation_map. apply Permutation_sym. exact Hperm. }
+      repeat split.
+      + apply HordQ_In.
+      + apply HordQ_In.
+      + intros Hx. apply dedup_In, HordS_In, Hx.
+      + intros Hx. apply HordS_In. rewrite dedup_In in Hx. exact Hx.
+      + apply (seteq_perm _ _ HpD).
+      + apply (seteq_perm _ _ HpD).
+      + intros k. apply lookup_perm; assumption.
+      + apply HordF_In.
+      + apply HordF_In.
+  Qed.
+End RoundTrip.
+
+(* ---- NFA ---- *)
+Definition gstep (d : list ((token * token) * list token)) (t : token * token * token) : list ((token * token) * list token) :=
+  let '(p, a, q) := t in
+  match lookup (p, a) d with Some s => update (p, a) (add q s) d | None => d ++ [((p, a), [q])] end.
+
+Lemma group_nfa_unfold trs : group_nfa trs = fold_left gstep trs [].
+Proof. reflexivity. Qed.
+
+Definition has_target (d : list ((token * token) * list token)) (k : token * token) (q : token) : Prop :=
+  exists s, lookup k d = Some s /\ In q s.
+
+Lemma gstep_target d p a q0 k q :
+  has_target (gstep d (p, a, q0)) k q <-> has_target d k q \/ (k = (p, a) /\ q = q0).
+Proof.
+  unfold has_target, gstep. destruct (lookup (p, a) d) as [s0|] eqn:E.
+  - split.
+    + intros [s [Hl Hq]]. rewrite lookup_update in Hl. destruct (eqb k (p, a)) eqn:Ek.
+      * apply eqb_true in Ek. subst k. inversion Hl; subst s. apply add_In in Hq.
+        destruct Hq as [-> | Hq]; [right; auto | left; exists s0; auto].
+      * left. exists s. auto.
+    + intros [[s [Hl Hq]]|[-> ->]].
+      * destruct (eqb k (p, a)) eqn:Ek.
+        -- apply eqb_true in Ek. subst k. exists (add q0 s0). rewrite lookup_update, eqb_refl. split; [reflexivity|].
+           apply add_In. right. congruence.
+        -- exists s. rewrite lookup_update, Ek. auto.
+      * exists (add q0 s0). rewrite lookup_update, eqb_refl. split; [reflexivity | apply add_In; auto].
+  - split.
+    + intros [s [Hl Hq]]. rewrite lookup_app in Hl. destruct (lookup k d) as [s1|] eqn:E1.
+      * inversion Hl; subst s1. left. exists s. auto.
+      * cbn [lookup] in Hl. destruct (eqb k (p, a)) eqn:Ek; [|discriminate].
+        apply eqb_true in Ek. inversion Hl; subst s. destruct Hq as [<-|[]]. right; auto.
+    + intros [[s [Hl Hq]]|[-> ->]].
+      * exists s. rewrite lookup_app, Hl. auto.
+      * exists [q0]. rewrite lookup_app, E. cbn [lookup]. rewrite eqb_refl. split; [reflexivity | left; reflexivity].
+Qed.
+
+Lemma fold_gstep_target trs : forall d k q,
+  has_target (fold_left gstep trs d) k q <-> has_target d k q \/ In (fst k, snd k, q) trs.
+Proof.
+  induction trs as [|[[p a] q0] trs IH]; intros d k q; cbn [fold_left In].
+  - tauto.
+  - rewrite IH, gstep_target. destruct k as [k1 k2]. cbn [fst snd]. split.
+    + intros [[H1|[E ->]]|H1]; [tauto | inversion E; subst; tauto | tauto].
+    + intros [H1|[E|H1]]; [tauto | inversion E; subst; tauto | tauto].
+Qed.
+
+Lemma group_nfa_target trs p a q : has_target (group_nfa trs) (p, a) q <-> In (p, a, q) trs.
+Proof.
+  rewrite group_nfa_unfold, fold_gstep_target. cbn [fst snd]. split; [|tauto].
+  intros [[s [Hl _]]|H1]; [discriminate | exact H1].
+Qed.
+
+Lemma update_In {K V} `{Eqb K} (k : K) (v : V) m k' v' : In (k', v') (update k v m) -> (k' = k /\ v' = v) \/ In (k', v') m.
+Proof.
+  induction m as [|[k1 v1] m IH]; cbn [update].
+  - intros [E|[]]. inversion E; auto.
+  - destruct (eqb k k1) eqn:Ek.
+    + intros [E|Hin]; [inversion E; auto | right; right; exact Hin].
+    + intros [E|Hin]; [right; left; exact E|]. destruct (IH Hin) as [Hl|Hr]; [auto | right; right; exact Hr].
+Qed.
+
+(* every entry of group_nfa has a non-empty target list *)
+Lemma fold_gstep_nonempty trs : forall d,
+  (forall k s, In (k, s) d -> s <> []) -> forall k s, In (k, s) (fold_left gstep trs d) -> s <> [].
+Proof.
+  induction trs as [|[[p a] q0] trs IH]; intros d Hd; cbn [fold_left]; [exact Hd|].
+  apply IH. intros k s Hin. unfold gstep in Hin. destruct (lookup (p, a) d) as [s0|] eqn:E.
+  - apply update_In in Hin. destruct Hin as [[_ ->]|Hin]; [|apply (Hd k s Hin)].
+    intros Hc. assert (Hq : In q0 (add q0 s0)) by (apply add_In; auto). rewrite Hc in Hq. destruct Hq.
+  - apply in_app_iff in Hin. destruct Hin as [Hin|[Ein|[]]]; [apply (Hd k s Hin)|].
+    inversion Ein; subst. discriminate.
+Qed.
+
+Lemma fold_gstep_entry trs : forall d k s q, In (k, s) (fold_left gstep trs d) -> In q s ->
+  (exists s0, In (k, s0) d /\ In q s0) \/ In (fst k, snd k, q) trs.
+Proof.
+  induction trs as [|[[p a] q0] trs IH]; intros d k s q Hin Hq; cbn [fold_left] in Hin.
+  - left. exists s. auto.
+  - destruct (IH _ _ _ _ Hin Hq) as [[s0 [Hin0 Hq0]]|Hr]; [|right; right; exact Hr].
+    unfold gstep in Hin0. destruct (lookup (p, a) d) as [s1|] eqn:E.
+    + apply update_In in Hin0. destruct Hin0 as [[-> ->]|Hin0].
+      * apply add_In in Hq0. destruct Hq0 as [-> | Hq0]; [right; left; reflexivity|].
+        left. exists s1. split; [apply lookup_In; exact E | exact Hq0].
+      * left. exists s0. auto.
+    + apply in_app_iff in Hin0. destruct Hin0 as [Hin0|[Ein|[]]]; [left; exists s0; auto|].
+      inversion Ein; subst. destruct Hq0 as [<-|[]]. right; left; reflexivity.
+Qed.
+
+Lemma group_nfa_entry trs p a s :
+  In ((p, a), s) (group_nfa trs) -> s <> [] /\ forall q, In q s -> In (p, a, q) trs.
+Proof.
+  intros Hin. split.
+  - apply (fold_gstep_nonempty trs [] (fun k s0 (H0 : In (k, s0) []) => match H0 with end) (p, a) s). exact Hin.
+  - intros q Hq. rewrite group_nfa_unfold in Hin.
+    destruct (fold_gstep_entry trs [] (p, a) s q Hin Hq) as [[s0 [[] _]]|Hr]. exact Hr.
 Qed.
